@@ -2675,8 +2675,12 @@ class Matrix:
             params = tuple(REGEX_TRANSFORM_PARAMETER.findall(sub_element[1]))
             params = [mag + units for mag, units in params]
             if SVG_TRANSFORM_MATRIX == name:
+                if len(params) < 6:
+                    continue  # matrix() requires six values.
                 params = map(float, params)
                 self.pre_cat(*params)
+            elif len(params) == 0:
+                continue  # every other function requires at least one value.
             elif SVG_TRANSFORM_TRANSLATE == name:
                 try:
                     x_param = Length(params[0]).value()
